@@ -232,7 +232,7 @@ func checkC06(s *C06Spec) Result {
 		// U2: the characters are those fmt prints for x
 		if fmtCompat && topLike(s.Place) && noTPW && !s.HasHook {
 			want := fmtReference(s.Place, d, s.Dir, x)
-			if !want.panicked && !(bytes.Contains(want.out, []byte("(PANIC=")) && s.Dir.hasWP()) {
+			if !want.panicked {
 				if g, w := strip(got.out), esc(want.out); !bytes.Equal(g, w) {
 					return fail("prints %s (stripped %s); fmt prints %s for x", q(got.out), q(g), q(w))
 				}
@@ -260,7 +260,7 @@ func checkC06(s *C06Spec) Result {
 			}
 			if noTPW && glueKnown {
 				want := fmtReference(s.Place, d, s.Dir, x)
-				if !want.panicked && !(bytes.Contains(want.out, []byte("(PANIC=")) && s.Dir.hasWP()) {
+				if !want.panicked {
 					if w := esc(want.out); !bytes.Equal(got.out, w) {
 						return fail("prints %s; fmt prints %s for x", q(got.out), q(w))
 					}
